@@ -286,8 +286,12 @@ func (p *ParagraphReader) Next() (*Paragraph, error) {
 			return nil, fmt.Errorf("Bad line: '%s' has no ':'", line)
 		}
 
-		/* We'll go ahead and take off any leading spaces */
-		lastKey = strings.TrimSpace(els[0])
+		/* The name starts in the first column (a blank there would have
+		 * made this a continuation line), so there is nothing to take off
+		 * its front: a form feed or a stray \r in front of a `#` is part of
+		 * an odd name, and must not turn it into a comment when it's
+		 * written back out */
+		lastKey = strings.TrimRightFunc(els[0], unicode.IsSpace)
 		value := strings.TrimSpace(els[1])
 
 		paragraph.Set(lastKey, value)
